@@ -1090,6 +1090,22 @@ theorem UseTail.congr {c0 c c' : Ctx} {now : Int} {new : List AppCall} (e1 : c0.
   rw [e1, e2] at h
   exact h
 
+/-- `passNow` (end of a token hold since the K3 repair): `PassToken` is entered and evaluated in the
+same poll. -/
+theorem passNow_eff (c c' : Ctx) (now : Int) (new : List AppCall) (h : passNow c now = .ok c') :
+    Quiet c c' ∧ c'.s.online = c.s.online ∧ UseTail c c' now new := by
+  unfold passNow at h
+  obtain ⟨c1, ht, h⟩ := bind_ok_inv h
+  obtain ⟨s', hs', hc'⟩ := tr_inv ht
+  have := toPassToken_inv hs'
+  subst this; subst hc'
+  obtain ⟨hq, ho, hpost⟩ := doPassToken_eff _ c' now true .first rfl h
+  refine ⟨⟨hq.calls, hq.apps, by simpa using hq.p⟩, by simpa using ho, ?_⟩
+  rcases hpost with ⟨h1, h2, -⟩ | ⟨-, h1, h2⟩ | ⟨h1, h2, -⟩
+  · exact .inr (.inl ⟨h1, by simpa using h2⟩)
+  · exact .inr (.inr (.inl ⟨h1, by simpa using h2⟩))
+  · exact .inr (.inr (.inr ⟨by simpa using h1, h2⟩))
+
 /-- Outcomes of a token visit step that may ask applications. -/
 def UsePost (c c' : Ctx) (now : Int) : Prop :=
   ∃ new, c'.calls = c.calls ++ new ∧ AskRun new ∧ c'.s.p = c.s.p ∧
@@ -1114,10 +1130,8 @@ theorem useTokenGo_eff (c c' : Ctx) (now : Int) (d : UseData) (hp : Bool) (h : u
       · exact .inr h'
     | false =>
       simp only at h
-      obtain ⟨s', hs', hc'⟩ := tr_inv h
-      have := toPassToken_inv hs'
-      subst this; subst hc'
-      exact ⟨new, hc, har, hpp, ho, hl, .inr (.inl ⟨rfl, hr⟩)⟩
+      obtain ⟨hq, ho2, htail⟩ := passNow_eff c2 c' now new h
+      exact ⟨new, hq.calls.trans hc, har, hq.p.trans hpp, ho2.trans ho, by rw [hq.apps]; exact hl, htail.congr hr hpp⟩
 
 theorem doUseToken_eff (c c' : Ctx) (now : Int) (d : UseData) (fcd : Bool) (hst : c.s.st = .useToken d fcd)
     (h : doUseToken c now = .ok c') : UsePost c c' now := by
@@ -1136,10 +1150,9 @@ theorem doUseToken_eff (c c' : Ctx) (now : Int) (d : UseData) (fcd : Bool) (hst 
     · exact lift { c with s := (waitSyncPause (holdUpdate c.s d) now).1 } rfl rfl (by simp) (by simp) (by simp) (useTokenGo_eff _ c' now d false h)
     · rcases ite_inv h with ⟨_, h⟩ | ⟨_, h⟩
       · exact lift { c with s := (waitSyncPause (holdUpdate c.s d) now).1 } rfl rfl (by simp) (by simp) (by simp) (useTokenGo_eff _ c' now d true h)
-      · obtain ⟨s', hs', hc'⟩ := tr_inv h
-        have := toPassToken_inv hs'
-        subst this; subst hc'
-        exact ⟨[], by simp, askRun_nil, by simp, by simp, rfl, .inr (.inl ⟨rfl, by simp⟩)⟩
+      · obtain ⟨hq, ho2, htail⟩ := passNow_eff _ c' now [] h
+        exact ⟨[], by simpa using hq.calls, askRun_nil, by simpa using hq.p, by simpa using ho2, by rw [hq.apps],
+          htail.congr (by simp) (by simp)⟩
 
 /-- Outcomes of a poll in `AwaitDataResponse`: keep waiting; deliver the (admitted) reply to the
 requesting application; drop an inadmissible telegram and back off to `ActiveIdle`; or deliver the
